@@ -308,4 +308,38 @@ def sig_batch_flag(case, issue):
     return any(k != "endpointslice" for k in kinds)
 
 
-SIGNATURES = {"weight-updates-enable-reloads-while-held": sig_weight_updates, "batch-reload-flag-set-without-change": sig_batch_flag}
+def sig_batch_flag_slice(case, issue):
+    """S-C12-e: a batch of EndpointSlices only, at least one of them referenced (its handler rewrote files, all unchanged)."""
+    m = re.match(r"task#(\d+):needless-reload-at-drain$", issue)
+    if not m or not case.get("impl"):
+        return False
+    no = int(m.group(1))
+    kinds = lbcgen.batch_of(case["impl"], no)
+    if not kinds or any(k != "endpointslice" for k in kinds):
+        return False
+    # the tasks of this window: did any of them write (i.e. was it referenced)?
+    n, wrote = 0, False
+    first = no - len(kinds) + 1
+    for e in case["impl"].split(","):
+        if e.startswith("T|"):
+            n += 1
+        elif first <= n <= no and e.startswith("W|"):
+            wrote = True
+    return wrote
+
+
+def sig_plus_endpoints_static(case, issue):
+    """S-C12-f: an EndpointSlice task on NGINX Plus rewrote the static part of a conf file (a queued Policy/Service change leaked in)."""
+    m = re.match(r"task#(\d+):unapplied:f:(conf|stream)/", issue)
+    if not m or not case.get("impl") or " plus=1 " not in case.get("line", ""):
+        return False
+    n = 0
+    for e in case["impl"].split(","):
+        if e.startswith("T|"):
+            n += 1
+            if n == int(m.group(1)):
+                return e.split("|")[1] == "endpointslice"
+    return False
+
+
+SIGNATURES = {"weight-updates-enable-reloads-while-held": sig_weight_updates, "plus-endpoints-task-carries-static-change": sig_plus_endpoints_static, "batch-reload-flag-set-by-referenced-endpointslice": sig_batch_flag_slice, "batch-reload-flag-set-without-change": sig_batch_flag}
